@@ -580,3 +580,35 @@ trait LinearPartitionPointExt<T>: AsRef<[T]> {
 }
 
 impl<T> LinearPartitionPointExt<T> for [T] {}
+
+/// Verification hooks (add-only): assemble a structure from raw parts and
+/// inspect its inventories.
+#[cfg(feature = "sux_verif")]
+impl<const NUM_U32S: usize, const COUNTER_WIDTH: usize, C, I, O>
+    SelectZeroSmall<NUM_U32S, COUNTER_WIDTH, C, I, O>
+{
+    /// # Safety
+    /// The parts must satisfy the invariants established by the constructors.
+    pub unsafe fn verif_from_raw_parts(
+        small_counters: C,
+        inventory: I,
+        inventory_begin: O,
+        log2_ones_per_inventory: usize,
+    ) -> Self {
+        Self {
+            small_counters,
+            inventory,
+            inventory_begin,
+            log2_ones_per_inventory,
+        }
+    }
+
+    /// Returns (inventory, inventory_begin, log2_ones_per_inventory).
+    pub fn verif_raw_parts(&self) -> (&I, &O, usize) {
+        (
+            &self.inventory,
+            &self.inventory_begin,
+            self.log2_ones_per_inventory,
+        )
+    }
+}
